@@ -37,7 +37,7 @@ FinalKeeps == (phase = "done" /\ Mode = "normal") =>
     Len(SelectSeq(fin.items, LAMBDA e : e.t = "c")) =
        Len(SelectSeq(st.flows[1], LAMBDA e : e.t = "c")) +
        (IF Len(st.flows) < 2 THEN 0 ELSE
-        LET RECURSIVE Cnt(_) Cnt(f) == IF f > Len(st.flows) THEN 0 ELSE Len(SelectSeq(st.flows[f], LAMBDA e : e.t = "c")) + Cnt(f+1) IN Cnt(2))
+        LET RECURSIVE Cnt(_) Cnt(f) == IF f > Len(st.flows) THEN 0 ELSE (IF f \in st.drop THEN 0 ELSE Len(SelectSeq(st.flows[f], LAMBDA e : e.t = "c"))) + Cnt(f+1) IN Cnt(2))
 \* the catalogue's symbol texts, exported once for the harness (one source of truth: Doc!Conc)
 Table == (doc = <<>> /\ phase = "gen") => PrintT("@T" \o ToJson([s \in AllSyms |-> Conc(s)]))
 Dump == phase = "done" => PrintT("@@" \o ToJson([doc |-> doc, src |-> st.src]))
